@@ -477,6 +477,7 @@ class SimIn:
         self.nreads = 0           # successful character reads
         self.ncalls = 0
         self._err_left = None
+        self.on_read = None       # hook(call ordinal) before the read's seam point
 
     def fileno(self):
         return self.fd
@@ -487,10 +488,12 @@ class SimIn:
     def read(self, n=1):
         import codecs
         w = self.world
-        w.seam("in.read")
         self.ncalls += 1
-        if n != 1:
-            raise HarnessError("SimIn.read only models read(1)")
+        if self.on_read is not None:
+            self.on_read(self.ncalls)
+        w.seam("in.read")
+        if not isinstance(n, int) or n < 1:
+            raise HarnessError("SimIn.read(%r) is not modelled" % (n,))
         o = self.kernel._get(self.fd)
         ordinal = self.nreads + 1
         if self._err_left is None:
@@ -502,15 +505,17 @@ class SimIn:
             raise OSError(errno.EIO, "Input/output error")
         dec = codecs.getincrementaldecoder(self.encoding)("replace")
         out = ""
-        while out == "":
+        while len(out) < n:
             if not o.inq:
+                if out:
+                    break      # like a tty: return what is there once something was read
                 if o.flags & _os.O_NONBLOCK:
                     w.log.add("in.read", "EAGAIN")
                     raise BlockingIOError(errno.EAGAIN, "Resource temporarily unavailable")
                 w.block_until(lambda: len(o.inq) > 0, None, "in.read")
             b = bytes(o.inq[:1])
             del o.inq[:1]
-            out = dec.decode(b)
+            out += dec.decode(b)
         self.nreads += 1
         self._err_left = None
         w.log.add("in.read", out)
